@@ -293,6 +293,35 @@ def call (f : Facts) (sse : Bool) (hs : List Text) (reqId : Nat) (es : List Emit
   if sse then readLoop f hs reqId (serverFrames reqId es a) RS.init
   else readJsonBody (answerJson reqId a)
 
+/-! ## notifications the sender refuses
+
+  `SendCustomNotification` / `SendNotification` (and through them `SendProgress` / `SendLogMessage`) first
+  `json.Marshal` the whole notification and only then take an event id and write the event (notifier.go; regenerated
+  fact `Mcp.Gen.icMarshalBeforeWrite`).  A notification that cannot be encoded (a NaN / ±Inf progress, a chan / func
+  value, a failing `MarshalJSON` anywhere in the params or in `Meta`) is therefore refused with
+  `ErrNotificationSerialization` before a single byte is written and before the writer's counter moves: on the stream
+  the attempt has not happened. -/
+
+/-- one `Send…` call of the tool handler -/
+inductive Attempt where
+  /-- the notification can be encoded: one event is written -/
+  | enc (e : Emit)
+  /-- `json.Marshal` fails: the sender returns `ErrNotificationSerialization`, nothing is written -/
+  | refused
+
+/-- the emits that reach the stream -/
+def sent : List Attempt → List Emit
+  | [] => []
+  | .enc e :: rest => e :: sent rest
+  | .refused :: rest => sent rest
+
+/-- one tool call whose handler makes the attempts `as` and answers `a` -/
+def callA (f : Facts) (sse : Bool) (hs : List Text) (reqId : Nat) (as : List Attempt) (a : Answer) : List Ev :=
+  call f sse hs reqId (sent as) a
+
+/-- the messages of the stream of such a call -/
+def framesA (reqId : Nat) (as : List Attempt) (a : Answer) : List Json := serverFrames reqId (sent as) a
+
 /-! ## handler registration histories
 
   `RegisterNotificationHandler(m, h)` is `t.notificationHandlers[m] = h`, `UnregisterNotificationHandler(m)` is
